@@ -157,6 +157,10 @@ theorem rawPassEnd_bridge (passes passNum ammoNum : Nat) :
     · simp (disch := omega) [h, ha, if_pos, if_neg]
     · simp (disch := omega) [h, ha, if_pos, if_neg]
 
+/-- the raw decoder reads a last line that lacks its newline (dbbf16d): the pass ends only on io.EOF WITHOUT data and the
+read-error test lets io.EOF through - which is what `rawStep` (over `readLineU`) models; `0` (dropped) would be `rawStepDrop` -/
+theorem rawLastLine_bridge : Gen.C13Src.rawLastLine = 1 := rfl
+
 theorem uriPassEnd_bridge (passes passNum ammoNum : Nat) :
     (Gen.C13Src.uriPassEnd passes passNum ammoNum).1 = passEndCode (httpPassEnd passes (passNum + 1) ammoNum) ∧
     ((Gen.C13Src.uriPassEnd passes passNum ammoNum).1 = 0 →
